@@ -105,7 +105,9 @@ def rand_tree(rng, depth):
 VALS = {
     "I": [0, 1, -1, 2, 127, 255, 256, 32766, 32767, -32767, -32768, 181, 182, 7, -7],
     "S": [0.0, -0.0, 1.0, -1.0, 0.5, 1.5, 2.5, -2.5, 16777216.0, 16777217.0, 3.4028235e38, 1e-45, 32767.5, -32768.5, 65536.0, float("inf"), float("nan"), 1e10],
-    "D": [0.0, 1.0, -1.0, 0.5, 2.5, 2147483648.0, 1e308, 5e-324, 32767.9, -32768.1, 1e39, float("inf"), float("nan"), 0.1],
+    # the last five lie within half a Single ulp below / above an integer: a conversion that detours through Single moves them across it
+    "D": [0.0, 1.0, -1.0, 0.5, 2.5, 2147483648.0, 1e308, 5e-324, 32767.9, -32768.1, 1e39, float("inf"), float("nan"), 0.1,
+          0.3 / 0.1, 7.99999999, 32767.9999, -32768.0001, 100.99999999],
     "T": ["", "A", "B", "AB", "é"],
 }
 
@@ -164,8 +166,8 @@ def gen(tier, rng):
     for op in OPS2:
         for t1 in "ISDT":
             for t2 in "ISDT":
-                vs1 = VALS[t1] if tier == "thorough" else rng.sample(VALS[t1], min(len(VALS[t1]), 6))
-                vs2 = VALS[t2] if tier == "thorough" else rng.sample(VALS[t2], min(len(VALS[t2]), 6))
+                vs1 = VALS[t1] if tier == "thorough" else rng.sample(VALS[t1], min(len(VALS[t1]), 8))
+                vs2 = VALS[t2] if tier == "thorough" else rng.sample(VALS[t2], min(len(VALS[t2]), 8))
                 for a in vs1:
                     for b in vs2:
                         cases.append(Case("op2 %s %s %s" % (op, val(t1, a), val(t2, b)), tag="matrix", meta=("matrix", op, t1, t2)))
@@ -174,7 +176,8 @@ def gen(tier, rng):
             for a in VALS[t1]:
                 cases.append(Case("op1 %s %s" % (op, val(t1, a)), tag="matrix-unary", meta=("matrix1", op, t1, None)))
     # (c) typed assignment
-    lits = ["0", "1", "2.5", "-2.5", "32767", "32768", "-32768.5", "-32769", "1E10", "1.5#", "0.1#", "1/3", "1#/3", "16777217", '"x"', "3%", "1E39#", "2.5!"]
+    lits = ["0", "1", "2.5", "-2.5", "32767", "32768", "-32768.5", "-32769", "1E10", "1.5#", "0.1#", "1/3", "1#/3", "16777217", '"x"', "3%", "1E39#", "2.5!",
+            "0.3#/0.1#", "32767.9999#", "-32768.0001#", "2.99999999#", "100.99999999#"]
     for suffix in ("%", "!", "#", "$", ""):
         for lit in lits:
             prog = ["10 V%s=%s:PRINT V%s" % (suffix, lit, suffix)]
